@@ -117,11 +117,16 @@ func C04(c *core.Ctx) {
 	c04gen(c)
 }
 
+var reFailedAssertion = regexp.MustCompile(`failed assertion: (\S+) has position`)
+
 // sigC04 classifies a rejected case narrowly (for KNOWN_FINDINGS matching).
 func sigC04(cs map[string]any) (string, string) {
 	obs := cs["obs"].(map[string]any)
 	what := fmt.Sprintf("knut check verdict/diagnostic disagrees with Ledger.tla (accept=%v)\nstderr: %v\njournal:\n%v", obs["accept"], obs["stderr"], cs["text"])
 	if se, _ := obs["stderr"].(string); strings.Contains(se, "failed assertion") && strings.Contains(se, "has position: 0 ") {
+		if m := reFailedAssertion.FindStringSubmatch(se); m != nil && !strings.HasPrefix(m[1], "Assets") && !strings.HasPrefix(m[1], "Liabilities") {
+			return "D34:assertion-on-nominal-account", what
+		}
 		return "D1:zero-assertion-on-unbooked-position", what
 	}
 	if obs["accept"] == true {
